@@ -242,3 +242,9 @@ class SequenceSearchResults(UserDict):
     def remove(self, sid):
         if sid in self.data:
             del self.data[sid]
+
+    def remove_section(self, sid, section_id):
+        """ Remove results belonging to one section of a sequence. """
+        if sid in self.data:
+            self.data[sid] = [r for r in self.data[sid]
+                              if r.section_id != section_id]
